@@ -216,6 +216,9 @@ def run(ctx: Ctx, env):
     g = env.grammar
     gm = grammar_module(env)
     kf = env.kindflow
+    # a look-behind makes a token depend on whether a blank stands before it: `(not a)` and `( not a)` must lex alike
+    from .c06 import check_token_left_context
+    check_token_left_context(ctx, env, "R1.token-independent-of-blank-before")
     alpha = rx.Alphabet.for_patterns([r.pattern for r in g.rules] + [r"\s"], g.reflags, full=(ctx.tier == "thorough"))
     ws_atom = (rx.sre_c.IN, ((rx.sre_c.CATEGORY, rx.sre_c.CATEGORY_SPACE),))
     ws = alpha.classes_matching(ws_atom)
